@@ -88,6 +88,9 @@ func mayBeNil(node Node) bool {
 		return mayBeNil(n.Node)
 	case *ConditionalNode:
 		return mayBeNil(n.Exp1) || mayBeNil(n.Exp2)
+	case *UnaryNode:
+		// Unary plus compiles to nothing and lets a nil through.
+		return n.Operator == "+" && mayBeNil(n.Node)
 	}
 	return false
 }
